@@ -7,6 +7,7 @@ import Bch.Drive.C11
 import Bch.Drive.C13
 import Bch.Drive.C16
 import Bch.Drive.C17
+import Bch.Drive.C18
 open Bch.Drive
 
 def dispatch (id : String) : Option Runner :=
@@ -26,6 +27,8 @@ def dispatch (id : String) : Option Runner :=
   | "C14" => some C13.run
   | "C16" => some C16.run
   | "C17" => some C17.run
+  | "C18" => some C18.run
+  | "C19" => some C19.run
   | _ => none
 
 def handle (line : String) : String :=
